@@ -31,6 +31,28 @@ func init() {
 					}
 				}
 			}
+			// constants bound inside functions: captured by closures that try to re-bind them later, bound from a parameter
+			for _, pr := range [][3]string{
+				{"func mk(){LIM := a; [func(){LIM := b; LIM}, func(){LIM}]}; g = mk(); catch(g[0]())", "g[1]()", "a"},
+				{"func mk(){LIM := a; [func(LIM){LIM}, func(){LIM}]}; g = mk(); catch(g[0](b))", "g[1]()", "a"},
+				{"func mk(){LIM := a; [func(){LIM = b; LIM}, func(){LIM}]}; g = mk(); catch(g[0]())", "g[1]()", "a"},
+				{"func mk(){LIM := [a]; [func(){LIM[0] = b}, func(){LIM}]}; g = mk(); catch(g[0]())", "g[1]()[0]", "a"},
+				{"func mk(){LIM := a; [func(){for LIM = 3 {1}}, func(){LIM}]}; g = mk(); catch(g[0]())", "g[1]()", "a"},
+				{"func mk(){LIM := a; [func(){LIM++}, func(){LIM}]}; g = mk(); catch(g[0]())", "g[1]()", "a"},
+				{"func mk(){LIM := a; func(){LIM := b; LIM}}; g = mk(); r = catch(g())", "r.err || r.value == a", "true"},
+				{"func mk(){LIM := a; func(LIM){LIM}}; g = mk(); r = catch(g(b))", "r.err || r.value == a", "true"},
+				{"func mk(){LIM := a; func(){func(){LIM := b; LIM}()}}; g = mk(); r = catch(g())", "r.err || r.value == a", "true"},
+				{"LIM = a; func mk(){func(){LIM := b; LIM}}; g = mk(); r = catch(g())", "r.err || r.value == a", "true"},
+				{"func fk(n){KK := n; n = n + 5; KK}", "fk(a)", "a"},
+				{"func fk(n){KK = n; n = n * 2; n++; KK}", "fk(a)", "a"},
+				{"func fk(){for i = 5 {if i == k1 {KK := i}}; KK}; r = catch(fk())", "r.value", "k1"},
+				{"func fk(n){KK := [n]; n = n + 1; KK[0]}", "fk(a)", "a"},
+				{"func fk(n){KK := n; h = func(){KK}; n = n - 1; h()}", "fk(a)", "a"},
+			} {
+				for _, reg := range []string{"reg", "noreg"} {
+					jobs = append(jobs, Job{Prop: "C19", Pkg: "eval", Func: "VerifConstProgram", Args: []string{pr[0], pr[1], pr[2], reg}, MaxDec: 600})
+				}
+			}
 			// every spelling of a constant name: the name is substituted for K in a sample of the skeletons
 			for _, name := range []string{"K_", "MAX_", "A_B_", "K9", "K__", "K_1", "X"} {
 				for _, in := range []string{"a", "[a,b]", "{a:b}"} {
@@ -45,7 +67,7 @@ func init() {
 		},
 		Budget: map[string]time.Duration{"quick": 6 * time.Minute, "thorough": 40 * time.Minute},
 		Reach:  []string{"mutation attempt refused"},
-		Bounds: map[string]interface{}{"constant_names": "K for every skeleton; K_, MAX_, A_B_, K9, K__, K_1, X for a third of them", "constant_values": "Integer, Float, String (2 bytes), Boolean, nil, small array, 10-element array, small map, 5-pair map, function - scalar contents symbolic",
+		Bounds: map[string]interface{}{"local_constants": "15 programs binding a constant inside a function (captured by closures that try =, :=, ++, index assignment, a loop or a parameter of that name after the function returned; bound from a parameter that changes afterwards), registers on and off", "constant_names": "K for every skeleton; K_, MAX_, A_B_, K9, K__, K_1, X for a third of them", "constant_values": "Integer, Float, String (2 bytes), Boolean, nil, small array, 10-element array, small map, 5-pair map, function - scalar contents symbolic",
 			"mutation_attempts": "43 programs: = := ++ -- (prefix and postfix), index and dot assignment, del of an element, use as loop variable (4 loop forms) and as parameter name, assignment / index assignment / ++ / del from nested functions, closures and loops, mutation through a copy, a function argument or a container holding the constant",
 			"registers":         "on; off for a third of the skeletons (all in thorough)"},
 		Outside: []string{"sequences of more than one mutation program", "extension functions that mutate their argument"},
@@ -108,6 +130,16 @@ func init() {
 					sk{kind, "a1 = %C; func mk(){for e = [a1] {return [e]}}; w = mk()", "a1[0] = c", []string{"w"}},
 				)
 			}
+			// maps in the large representation holding few entries (a larger map that shrank; a literal with repeated keys)
+			sks = append(sks,
+				sk{"map", "e0 = %C; a1 = {1:1,2:2,3:3,4:4,5:c}; del(a1[5]); del(a1[4]); b1 = a1", "b1[1] = c", []string{"a1"}},
+				sk{"map", "e0 = %C; a1 = {1:1,2:2,3:3,4:4,5:c}; del(a1[5]); b1 = a1", "del(b1[1])", []string{"a1"}},
+				sk{"map", "e0 = %C; a1 = {1:1,2:2,3:3,1:10,2:c}; b1 = a1", "b1[3] = c", []string{"a1"}},
+				sk{"map", "e0 = %C; a1 = {1:1,2:2,3:3,4:4,5:c}; del(a1[5]); func mut(u){u[2] = c; u}", "mut(a1)", []string{"a1"}},
+				sk{"map", "a1 = %C; a1.zz1 = 1; b1 = a1", "c1 = a1 + {0: c}", []string{"a1", "b1"}},
+				sk{"map", "a1 = %C; a1.zz1 = 1; c1 = a1 + {\"zz9\": 1}", "d1 = a1 + {\"zz8\": c}", []string{"a1", "c1"}},
+				sk{"map", "a1 = %C; b1 = a1[0:3]", "c1 = b1 + {100: c}", []string{"a1", "b1"}},
+			)
 			// the introspection map is a value like any other once it is bound
 			sks = append(sks,
 				sk{"map", "e0 = %C; a1 = info", "zz9 = 1; b1 = info", []string{"a1"}},
